@@ -454,6 +454,11 @@ def fam_bound(tier, rng):
         ops.append(f"visit witnesses:{n} n {hx(wits)}")
         tx = struct.pack("<i", 2) + ins + outs + struct.pack("<I", 7)
         ops.append(f"visit tx n {hx(tx)}")
+        if n <= 254:
+            # a witness stack of n items inside a transaction (the count prefix changes width at 253)
+            tw = Tx(2, [(pat.take(32), 1, b"", 0xFFFFFFFE)], [(9, b"\x51")], [[bytes([i % 7 + 1] * (i % 3)) for i in range(n)]], 11, True)
+            ops.append(f"visit tx n {hx(tw.enc())}")
+            ops.append(f"visit tx n {hx(tw.enc() + _K99)}")
         # a block of n tiny transactions (12 bytes each: segwit form, no inputs, no outputs)
         tiny = bytes([1, 0, 0, 0, 0, 1, 0, 0, 0, 0, 0, 0])
         blk = header(pat) + cs(n) + tiny * n
